@@ -44,6 +44,7 @@ type crashRec struct {
 	max     int
 	pending []string // trace lines produced inside hooks, emitted by the main goroutine
 	parkRot chan struct{} // mix c02: the post-rotation flush waits here until released
+	parkOnly map[int]bool // mix c02: if not nil, only the flushes of these files wait (the others run)
 	rotParked int32
 }
 
@@ -154,7 +155,8 @@ func (cs *crashRec) take(label string, mutate func(dir string)) {
 
 func crashHook(point string, args ...interface{}) {
 	seqHook(point, args...)
-	if cs := curCrash; cs != nil && cs.parkRot != nil && point == "data.flush.enter" && args[1].(int) >= 0 && curGID() != mainGID {
+	if cs := curCrash; cs != nil && cs.parkRot != nil && point == "data.flush.enter" && args[1].(int) >= 0 && curGID() != mainGID &&
+		(cs.parkOnly == nil || cs.parkOnly[args[1].(int)]) {
 		atomic.AddInt32(&cs.rotParked, 1)
 		select {
 		case <-cs.parkRot:
@@ -347,8 +349,27 @@ func crashCase(c *Ctx, r *RNG, id, base, mix string) {
 		cs.parkRot = make(chan struct{})
 		atomic.StoreInt64(&s.noQuiesce, 1)
 		head0 := s.hs.VerifHead(0)
-		for i := 0; i < 60 && s.hs.VerifHead(0) == head0; i++ {
+		nrot := 1
+		if r.Chance(50) {
+			// several rotations in one process life; the flush goroutines of SOME of the files left behind have not run
+			// yet when Close is called (they are independent goroutines: a later one may well finish before an earlier one)
+			nrot = 2 + r.Intn(2)
+			cs.parkOnly = map[int]bool{}
+			for j := 0; j < nrot; j++ {
+				if r.Chance(55) {
+					cs.parkOnly[head0+j] = true
+				}
+			}
+			if len(cs.parkOnly) == 0 {
+				cs.parkOnly[head0+r.Intn(nrot)] = true
+			}
+			c.count(fmt.Sprintf("c02.rotations-%d.parked-%d", nrot, len(cs.parkOnly)))
+		}
+		for i := 0; i < 60*nrot && s.hs.VerifHead(0) < head0+nrot; i++ {
 			write()
+			if cs.parkOnly != nil {
+				time.Sleep(200 * time.Microsecond) // let the flushes that are not held run
+			}
 		}
 		for i := 0; i < r.Intn(4); i++ {
 			write()
